@@ -242,9 +242,9 @@ Proof.
       destruct (set_hdrs_good (hset (o0, h) (b0 :: l0) (hdrs σ1)) σ1 W1) as (E2 & W2).
       splits; auto; [|discriminate]. eapply ext_trans; eauto.
     + (* SRestart *)
-      destruct (fn || allowed); [|discriminate]. inversion H; subst. splits; auto using ext_refl. discriminate.
+      destruct allowed; [|discriminate]. inversion H; subst. splits; auto using ext_refl. discriminate.
     + (* SError *)
-      destruct (negb fn && negb allowed); [discriminate|].
+      destruct (negb allowed); [discriminate|].
       bind_inv H as σ1 H1. bind_inv H as σ2 H2. inversion H; subst.
       assert (K : forall (oe : option expr) g σa σb, wf σa ->
                 match oe with
